@@ -41,7 +41,7 @@ Section Shift.
   Hypothesis Hbase1 : n0 <= gb1.
   Hypothesis Hbase2 : n0 <= gb2.
   Variables (G1 G2 : graph) (S1 S2 : list thunk) (XE1 XE2 XA1 XA2 XP1 XP2 : list lstmt).
-  Variables (SC1 SC2 : list (ident * scoped_values)) (PV1 PV2 : list (elem_key * stmt_ctx)).
+  Variables (SC1 SC2 : list (ident * scoped_values)) (PV1 PV2 : list (elem_key * stmt_ctx)) (PA1 PA2 : list value).
   Hypothesis HG1 : N.of_nat (length G1) = gb1.
   Hypothesis HG2 : N.of_nat (length G2) = gb2.
   Hypothesis HS1 : N.of_nat (length S1) = kb1.
@@ -76,7 +76,7 @@ Section Shift.
   Definition RD (n m : N) (X1 X2 l1 l2 : list lstmt) : Prop :=
     exists es, l1 = X1 ++ es /\ l2 = X2 ++ map (lsren sg sl) es /\ Forall (lsall okfn (Dn n) (Lm m)) es.
   Definition RLoc (n m : N) (a b : varmap lvalue) : Prop := b = llren sg sl a /\ llall okfn (Dn n) (Lm m) a.
-  Definition RP (n : N) (a b : list value) : Prop := b = map vr a /\ Forall (vall (Dn n)) a.
+  Definition RP (n : N) (a b : list value) : Prop := exists ps, a = PA1 ++ ps /\ b = PA2 ++ map vr ps /\ Forall (vall (Dn n)) ps.
   Definition R (s1 s2 : lstate) : Prop :=
     RG (l_graph s1) (l_graph s2) /\ RS (gn s1) (l_store s1) (l_store s2) /\
     RLoc (gn s1) (sn s1) (l_locals s1) (l_locals s2) /\
@@ -97,7 +97,7 @@ Section Shift.
   Lemma RLoc_mono n m n' m' a b : n <= n' -> m <= m' -> RLoc n m a b -> RLoc n' m' a b.
   Proof. intros Hn Hm [H1 H2]. split; [exact H1|]. eapply llall_impl; [| |exact H2]; [intros i; apply Dn_mono, Hn|intros i; apply Lm_mono, Hm]. Qed.
   Lemma RP_mono n n' a b : n <= n' -> RP n a b -> RP n' a b.
-  Proof. intros Hn [H1 H2]. split; [exact H1|]. eapply valls_impl; [|exact H2]. intros i; apply Dn_mono, Hn. Qed.
+  Proof. intros Hn (ps & H1 & H2 & H3). exists ps. split; [exact H1|]. split; [exact H2|]. eapply valls_impl; [|exact H3]. intros i; apply Dn_mono, Hn. Qed.
 
   Lemma RG_len g1 g2 : RG g1 g2 -> exists k, N.of_nat (length g1) = gb1 + k /\ N.of_nat (length g2) = gb2 + k.
   Proof. intros (gs & -> & -> & _). exists (N.of_nat (length gs)). rewrite !app_length. lia. Qed.
@@ -108,7 +108,8 @@ Section Shift.
   Definition bsim {A B} (n m : N) (P : A -> B -> N -> N -> Prop) (c1 : M lstate A) (c2 : M lstate B) : Prop :=
     forall s1 s2 p, R s1 s2 -> n <= gn s1 -> m <= sn s1 ->
       match c1 s1 p with
-      | Ok (a, s1', p') => exists b s2', c2 s2 p = Ok (b, s2', p') /\ R s1' s2' /\ gn s1 <= gn s1' /\ sn s1 <= sn s1' /\ P a b (gn s1') (sn s1')
+      | Ok (a, s1', p') => exists b s2', c2 s2 p = Ok (b, s2', p') /\ R s1' s2' /\ l_params s1' = l_params s1 /\
+                             gn s1 <= gn s1' /\ sn s1 <= sn s1' /\ P a b (gn s1') (sn s1')
       | Err e => c2 s2 p = Err e
       | Panic x => c2 s2 p = Panic x
       | OutOfFuel => c2 s2 p = OutOfFuel
@@ -132,7 +133,7 @@ Section Shift.
   Proof. intros HP a b n m n' m' Hn Hm H. unfold PL in *. induction H; constructor; [eapply HP; eauto|assumption]. Qed.
 
   Lemma bsim_ret A B n m (P : A -> B -> N -> N -> Prop) a b : (forall n1 m1, n <= n1 -> m <= m1 -> P a b n1 m1) -> bsim n m P (ret a) (ret b).
-  Proof. intros H s1 s2 p HR Hn Hm. cbn. exists b, s2. split; [reflexivity|]. split; [exact HR|]. split; [lia|]. split; [lia|]. apply H; assumption. Qed.
+  Proof. intros H s1 s2 p HR Hn Hm. cbn. exists b, s2. split; [reflexivity|]. split; [exact HR|]. split; [reflexivity|]. split; [lia|]. split; [lia|]. apply H; assumption. Qed.
   Lemma bsim_bind A B C D n m (P : A -> B -> N -> N -> Prop) (Q : C -> D -> N -> N -> Prop) c1 c2 (f1 : A -> M lstate C) (f2 : B -> M lstate D) :
     bsim n m P c1 c2 ->
     (forall a b n1 m1, n <= n1 -> m <= m1 -> P a b n1 m1 -> bsim n1 m1 Q (f1 a) (f2 b)) ->
@@ -140,16 +141,16 @@ Section Shift.
   Proof.
     intros Hc Hf s1 s2 p HR Hn Hm. specialize (Hc s1 s2 p HR Hn Hm). unfold bind.
     destruct (c1 s1 p) as [[[a s1'] p']|e|x|]; [|rewrite Hc; reflexivity..].
-    destruct Hc as (b & s2' & E & HR' & Hg & Hs & HP). rewrite E.
+    destruct Hc as (b & s2' & E & HR' & Hpa & Hg & Hs & HP). rewrite E.
     specialize (Hf a b (gn s1') (sn s1') ltac:(lia) ltac:(lia) HP s1' s2' p' HR' (N.le_refl _) (N.le_refl _)).
     destruct (f1 a s1' p') as [[[c s1''] p'']|e|x|]; try exact Hf.
-    destruct Hf as (d & s2'' & E2 & HR'' & Hg2 & Hs2 & HQ). exists d, s2''. split; [exact E2|]. split; [exact HR''|]. split; [lia|]. split; [lia|exact HQ].
+    destruct Hf as (d & s2'' & E2 & HR'' & Hpa2 & Hg2 & Hs2 & HQ). exists d, s2''. split; [exact E2|]. split; [exact HR''|]. split; [congruence|]. split; [lia|]. split; [lia|exact HQ].
   Qed.
   Lemma bsim_conseq A B n m (P Q : A -> B -> N -> N -> Prop) c1 c2 :
     (forall a b n1 m1, n <= n1 -> m <= m1 -> P a b n1 m1 -> Q a b n1 m1) -> bsim n m P c1 c2 -> bsim n m Q c1 c2.
   Proof.
     intros HPQ H s1 s2 p HR Hn Hm. specialize (H s1 s2 p HR Hn Hm). destruct (c1 s1 p) as [[[a s1'] p']|e|x|]; try exact H.
-    destruct H as (b & s2' & E & HR' & Hg & Hs & HP). exists b, s2'. split; [exact E|]. split; [exact HR'|]. split; [exact Hg|]. split; [exact Hs|].
+    destruct H as (b & s2' & E & HR' & Hpa & Hg & Hs & HP). exists b, s2'. split; [exact E|]. split; [exact HR'|]. split; [exact Hpa|]. split; [exact Hg|]. split; [exact Hs|].
     apply HPQ; [lia|lia|exact HP].
   Qed.
   Lemma bsim_weaken A B n m n' m' (P : A -> B -> N -> N -> Prop) c1 c2 : n <= n' -> m <= m' -> bsim n m P c1 c2 -> bsim n' m' P c1 c2.
@@ -169,14 +170,14 @@ Section Shift.
     end -> bsim n m P (lift r1) (lift r2).
   Proof.
     intros H s1 s2 p HR Hn Hm. unfold lift. destruct r1 as [a|e|x|]; [|rewrite H; reflexivity..].
-    destruct H as (b & -> & H). exists b, s2. split; [reflexivity|]. split; [exact HR|]. split; [lia|]. split; [lia|]. apply H; assumption.
+    destruct H as (b & -> & H). exists b, s2. split; [reflexivity|]. split; [exact HR|]. split; [reflexivity|]. split; [lia|]. split; [lia|]. apply H; assumption.
   Qed.
   Lemma bsim_lift A n m (r : res A) : bsim n m PE (lift r) (lift r).
   Proof. apply bsim_lift2. destruct r; try reflexivity. eexists. split; [reflexivity|]. intros; reflexivity. Qed.
   Lemma bsim_poll n m l : bsim n m (@PU unit unit) (lpoll l) (lpoll l).
   Proof.
     intros s1 s2 p HR Hn Hm. unfold lpoll, poll. destruct (poll_step l p) as [q c]. destruct c; [reflexivity|].
-    exists tt, s2. split; [reflexivity|]. split; [exact HR|]. split; [lia|]. split; [lia|exact I].
+    exists tt, s2. split; [reflexivity|]. split; [exact HR|]. split; [reflexivity|]. split; [lia|]. split; [lia|exact I].
   Qed.
   Lemma bsim_ctx A B n m (P : A -> B -> N -> N -> Prop) c c1 c2 : bsim n m P c1 c2 -> bsim n m P (ctx_wrap c c1) (ctx_wrap c c2).
   Proof.
@@ -244,7 +245,7 @@ Section Shift.
 
   Ltac rdes HR := destruct HR as (HG & HS & HL & HE & HA & HP & HPa & Hsc1 & Hsc2 & Hpv1 & Hpv2).
   Ltac fld := cbn [l_graph l_locals l_store l_scoped l_edges l_attrs l_prints l_params l_prev wgraph wlocals wstore wparams] in *.
-  Ltac done_post := split; [apply N.le_refl|split; [apply N.le_refl|]].
+  Ltac done_post := split; [reflexivity|split; [apply N.le_refl|split; [apply N.le_refl|]]].
 
   Lemma set_llocals_eq x s p : set_llocals x s p = Ok (tt, wlocals x s, p). Proof. reflexivity. Qed.
   Lemma bsim_set_llocals n m a b : RLoc n m a b -> bsim n m (@PU unit unit) (set_llocals a) (set_llocals b).
@@ -294,7 +295,7 @@ Section Shift.
     intros s1 s2 p HR Hn Hm. rdes HR. rewrite !ladd_node_eq. exists (N.of_nat (length (l_graph s2))), (wgraph (l_graph s2 ++ [new_gnode]) s2).
     split; [reflexivity|]. destruct HG as (gs & Eg1 & Eg2 & Hpl).
     assert (Hgrow : gn s1 <= gn (wgraph (l_graph s1 ++ [new_gnode]) s1)) by (unfold gn; fld; rewrite app_length; lia).
-    split; [|split; [exact Hgrow|split; [apply N.le_refl|]]].
+    split; [|split; [reflexivity|split; [exact Hgrow|split; [apply N.le_refl|]]]].
     - apply R_intro; fld; try assumption.
       + exists (gs ++ [new_gnode]). rewrite Eg1, Eg2, <- !app_assoc. split; [reflexivity|]. split; [reflexivity|].
         apply Forall_app. split; [exact Hpl|]. constructor; [|constructor]. split; [reflexivity|constructor].
@@ -332,7 +333,7 @@ Section Shift.
     destruct (attrs_add (g_attrs nd) k v) as [m' c] eqn:Eadd. destruct c; [reflexivity|].
     unfold set_lgraph, upd, modify, graph_update. rewrite <- Eg1, <- Eg2. exists tt. eexists. split; [reflexivity|].
     assert (Hlen : gn (wgraph (list_update (N.to_nat a) (with_attrs m') (l_graph s1)) s1) = gn s1) by (unfold gn; fld; rewrite list_update_length; reflexivity).
-    split; [|split; [rewrite <- Hlen; apply N.le_refl|split; [apply N.le_refl|exact I]]].
+    split; [|split; [reflexivity|split; [rewrite <- Hlen; apply N.le_refl|split; [apply N.le_refl|exact I]]]].
     apply R_intro; fold (wgraph (list_update (N.to_nat a) (with_attrs m') (l_graph s1)) s1); rewrite ?Hlen; fld; try assumption.
     exists (list_update (N.to_nat (a - gb1)) (with_attrs m') gs). rewrite Eg1, Eg2.
     rewrite (update_suffix G1 gs gb1 a _ HG1 Ha1), (update_suffix G2 gs gb2 (sg a) _ HG2 Hs1), Hs2. split; [reflexivity|]. split; [reflexivity|].
@@ -358,7 +359,7 @@ Section Shift.
     set (s1' := wstore (l_store s1 ++ [{| th_state := TUnforced lv; th_dbg := dbg |}]) s1).
     assert (Hgrow : sn s1 <= sn s1') by (unfold sn, s1'; fld; rewrite app_length; lia).
     assert (Hgn : gn s1' = gn s1) by reflexivity.
-    split; [|split; [rewrite Hgn; apply N.le_refl|split; [exact Hgrow|]]].
+    split; [|split; [reflexivity|split; [rewrite Hgn; apply N.le_refl|split; [exact Hgrow|]]]].
     - apply R_intro; rewrite ?Hgn; unfold s1'; fld; try assumption.
       + exists (ts ++ [{| th_state := TUnforced lv; th_dbg := dbg |}]). rewrite Es1, Es2, map_app, <- !app_assoc. split; [reflexivity|]. split; [reflexivity|].
         intros j th Hj. destruct (Nat.lt_ge_cases j (length ts)) as [Hlt|Hge].
@@ -385,7 +386,7 @@ Section Shift.
     set (s1' := wstore (list_update (N.to_nat loc) f1 (l_store s1)) s1).
     assert (Hsn : sn s1' = sn s1) by (unfold sn, s1'; fld; rewrite list_update_length; reflexivity).
     assert (Hgn : gn s1' = gn s1) by reflexivity.
-    split; [|split; [rewrite Hgn; apply N.le_refl|split; [rewrite Hsn; apply N.le_refl|exact I]]].
+    split; [|split; [reflexivity|split; [rewrite Hgn; apply N.le_refl|split; [rewrite Hsn; apply N.le_refl|exact I]]]].
     apply R_intro; rewrite ?Hgn, ?Hsn; unfold s1'; fld; try assumption.
     exists (list_update (N.to_nat (loc - kb1)) f1 ts). rewrite Es1, Es2.
     assert (Hsl : kb2 <= sl loc /\ sl loc - kb2 = loc - kb1) by (unfold sl; lia). destruct Hsl as [Hsl1 Hsl2].
@@ -403,24 +404,6 @@ Section Shift.
   Proof. intros a b n m n' m' Hn _ [H1 H2]. split; [exact H1|]. eapply valls_impl; [|exact H2]. intros i; apply Dn_mono, Hn. Qed.
   Lemma PL_PV vs vs' n m : PL PV vs vs' n m -> PVS vs vs' n m.
   Proof. unfold PL, PVS. induction 1 as [|v w vs vs' [H1 H2] _ [IH1 IH2]]; [split; [reflexivity|constructor]|]. subst. split; [reflexivity|constructor; assumption]. Qed.
-  Lemma bsim_lpush_param n m v : vall (Dn n) v -> bsim n m (@PU unit unit) (lpush_param v) (lpush_param (vr v)).
-  Proof.
-    intros Hv s1 s2 p HR Hn Hm. rdes HR. unfold lpush_param, bind, get_state, set_lparams, upd, modify. exists tt. eexists. split; [reflexivity|].
-    split; [|done_post; exact I]. fold (wparams (l_params s1 ++ [v]) s1). apply R_intro; unfold gn, sn in *; fld; try assumption.
-    destruct HPa as [H1 H2]. split; [rewrite H1, map_app; reflexivity|]. apply Forall_app. split; [exact H2|]. constructor; [|constructor].
-    eapply vall_impl; [|exact Hv]. intros i; apply Dn_mono, Hn.
-  Qed.
-  Lemma bsim_ldrain_params n m k : bsim n m PVS (ldrain_params k) (ldrain_params k).
-  Proof.
-    intros s1 s2 p HR Hn Hm. rdes HR. unfold ldrain_params, bind, get_state. destruct HPa as [H1 H2]. rewrite H1, map_length.
-    destruct (Nat.ltb (length (l_params s1)) k); [reflexivity|]. unfold set_lparams, upd, modify, ret. eexists. eexists. split; [reflexivity|].
-    set (d := (length (l_params s1) - k)%nat). fold (wparams (firstn d (l_params s1)) s1).
-    split; [|done_post].
-    - apply R_intro; unfold gn, sn in *; fld; try assumption. split; [apply firstn_map|]. apply Forall_forall. intros x Hx. rewrite Forall_forall in H2. apply H2.
-      rewrite <- (firstn_skipn d (l_params s1)). apply in_or_app. left. exact Hx.
-    - unfold PVS, gn; fld. split; [apply skipn_map|]. apply Forall_forall. intros x Hx. rewrite Forall_forall in H2. apply H2.
-      rewrite <- (firstn_skipn d (l_params s1)). apply in_or_app. right. exact Hx.
-  Qed.
 
   (* ---------------- the interpreter ---------------- *)
   Section Interp.
@@ -461,6 +444,64 @@ Section Shift.
     Lemma valls_mono n n' l : n <= n' -> Forall (vall (Dn n)) l -> Forall (vall (Dn n')) l.
     Proof. intros Hn. apply valls_impl. intros i; apply Dn_mono, Hn. Qed.
 
+
+    (* the parameter buffer: the argument loop of a call pushes one value per argument, the call drains them *)
+    Lemma lpush_param_eq v s p : lpush_param v s p = Ok (tt, wparams (l_params s ++ [v]) s, p). Proof. reflexivity. Qed.
+    Lemma ldrain_eq base vs k s p : l_params s = base ++ vs -> length vs = k -> ldrain_params k s p = Ok (vs, wparams base s, p).
+    Proof.
+      intros E Hk. unfold ldrain_params, bind, get_state. rewrite E, app_length, Hk.
+      destruct (Nat.ltb_spec (length base + k) k) as [Hlt|_]; [exfalso; lia|].
+      replace (length base + k - k)%nat with (length base) by lia.
+      rewrite firstn_app, firstn_all, Nat.sub_diag, firstn_O, app_nil_r, skipn_app, skipn_all, Nat.sub_diag, skipn_O. reflexivity.
+    Qed.
+    Lemma R_push_param s1 s2 v : R s1 s2 -> vall (Dn (gn s1)) v -> R (wparams (l_params s1 ++ [v]) s1) (wparams (l_params s2 ++ [vr v]) s2).
+    Proof.
+      intros (HG & HS & HL & HE & HA & HP & HPa & Hsc1 & Hsc2 & Hpv1 & Hpv2) Hv. apply R_intro; unfold gn, sn in *; fld; try assumption.
+      destruct HPa as (ps & H1 & H2 & H3). exists (ps ++ [v]). rewrite H1, H2, map_app, <- !app_assoc. split; [reflexivity|]. split; [reflexivity|].
+      apply Forall_app. split; [exact H3|]. constructor; [exact Hv|constructor].
+    Qed.
+    Lemma push_args_sim (ev1 ev2 : lvalue -> M lstate value) : forall args n m,
+      (forall x n1 m1, n <= n1 -> m <= m1 -> In x args -> lvall okfn (Dn n1) (Lm m1) x -> bsim n1 m1 PV (ev1 x) (ev2 (lr x))) ->
+      Forall (lvall okfn (Dn n) (Lm m)) args ->
+      forall s1 s2 p, R s1 s2 -> n <= gn s1 -> m <= sn s1 ->
+        match iterM (fun a => v <- ev1 a ;; lpush_param v) args s1 p with
+        | Ok (_, s1', p') => exists s2' vs, iterM (fun a => v <- ev2 a ;; lpush_param v) (map lr args) s2 p = Ok (tt, s2', p') /\ R s1' s2' /\
+                               l_params s1' = l_params s1 ++ vs /\ l_params s2' = l_params s2 ++ map vr vs /\ length vs = length args /\
+                               Forall (vall (Dn (gn s1'))) vs /\ gn s1 <= gn s1' /\ sn s1 <= sn s1'
+        | Err e => iterM (fun a => v <- ev2 a ;; lpush_param v) (map lr args) s2 p = Err e
+        | Panic x => iterM (fun a => v <- ev2 a ;; lpush_param v) (map lr args) s2 p = Panic x
+        | OutOfFuel => iterM (fun a => v <- ev2 a ;; lpush_param v) (map lr args) s2 p = OutOfFuel
+        end.
+    Proof.
+      induction args as [|x args IH]; intros n m Hev Hargs s1 s2 p HR Hn Hm; cbn [iterM map].
+      - exists s2, []. cbn [map length]. rewrite !app_nil_r. split; [reflexivity|]. split; [exact HR|]. repeat split; try reflexivity; try apply N.le_refl. constructor.
+      - inversion Hargs as [|? ? Hx Hrest]; subst.
+        set (F1 := fun a => v <- ev1 a ;; lpush_param v) in *. set (F2 := fun a => v <- ev2 a ;; lpush_param v) in *.
+        unfold bind.
+        pose proof (Hev x n m (N.le_refl _) (N.le_refl _) (or_introl eq_refl) Hx s1 s2 p HR Hn Hm) as Hb.
+        destruct (ev1 x s1 p) as [[[v s1a] pa]|e|y|]; [|rewrite Hb; reflexivity..].
+        destruct Hb as (v' & s2a & E2 & HRa & Hpa & Hga & Hsa & [-> Hv]). rewrite E2, !lpush_param_eq.
+        assert (Hpa2 : l_params s2a = l_params s2).
+        { destruct HR as (_ & _ & _ & _ & _ & _ & (ps & A1 & A2 & _) & _). destruct HRa as (_ & _ & _ & _ & _ & _ & (ps' & B1 & B2 & _) & _).
+          rewrite Hpa, A1 in B1. apply app_inv_head in B1. subst ps'. congruence. }
+        specialize (IH (gn s1a) (sn s1a)
+                      (fun x0 n1 m1 H1 H2 Hin => Hev x0 n1 m1 ltac:(lia) ltac:(lia) (or_intror Hin))
+                      ltac:(eapply lvalls_impl; [| |exact Hrest]; [intros i; apply Dn_mono; lia|intros i; apply Lm_mono; lia])
+                      (wparams (l_params s1a ++ [v]) s1a) (wparams (l_params s2a ++ [vr v]) s2a) pa (R_push_param s1a s2a v HRa Hv) (N.le_refl _) (N.le_refl _)).
+        destruct (iterM F1 args (wparams (l_params s1a ++ [v]) s1a) pa) as [[[u s1b] pb]|e|y|]; try exact IH.
+        destruct IH as (s2b & vs & E3 & HRb & Hp1 & Hp2 & Hlen & Hvs & Hgb & Hsb). cbv beta iota. exists s2b, (v :: vs). split; [exact E3|]. split; [exact HRb|].
+        cbn [l_params wparams] in Hp1, Hp2. split; [rewrite Hp1, Hpa, <- app_assoc; reflexivity|]. split; [rewrite Hp2, Hpa2, <- app_assoc; reflexivity|].
+        split; [cbn [length]; congruence|]. split; [constructor; [eapply vall_impl; [|exact Hv]; intros i; apply Dn_mono; exact Hgb|exact Hvs]|].
+        change (gn (wparams (l_params s1a ++ [v]) s1a)) with (gn s1a) in Hgb. change (sn (wparams (l_params s1a ++ [v]) s1a)) with (sn s1a) in Hsb. split; lia.
+    Qed.
+    Lemma R_restore_params s1 s2 s1' s2' vs : R s1 s2 -> R s1' s2' -> l_params s1' = l_params s1 ++ vs -> l_params s2' = l_params s2 ++ map vr vs ->
+      R (wparams (l_params s1) s1') (wparams (l_params s2) s2').
+    Proof.
+      intros (_ & _ & _ & _ & _ & _ & (ps & A1 & A2 & _) & _) (HG & HS & HL & HE & HA & HP & (ps' & B1 & B2 & B3) & Hsc1 & Hsc2 & Hpv1 & Hpv2) E1 E2'.
+      apply R_intro; unfold gn, sn in *; fld; try assumption. exists ps. split; [exact A1|]. split; [exact A2|].
+      rewrite E1, A1, <- app_assoc in B1. apply app_inv_head in B1. subst ps'. apply Forall_app in B3. apply B3.
+    Qed.
+
     Lemma bsim_eval_all : forall fuel,
       (forall lv n m, lvall okfn (Dn n) (Lm m) lv -> bsim n m PV (eval_lv' fuel lv) (eval_lv' fuel (lr lv))) /\
       (forall loc n m, Lm m loc -> bsim n m PV (force_thunk' fuel loc) (force_thunk' fuel (sl loc))).
@@ -483,11 +524,18 @@ Section Shift.
             -- rewrite vall_set. apply set_of_list_all. eapply valls_mono; [|exact Hall]. exact Hn3.
         + cbn [lvall] in Hlv. apply IHt. eapply Lm_mono; [|exact Hlv]. exact Hm1.
         + cbn [lvall] in Hlv. contradiction.
-        + rewrite lvall_call in Hlv. destruct Hlv as [Hf Hargs]. rewrite map_length. eapply bsim_seq.
-          * apply (bsim_iterM _ _ n1 m1 _ _ PLV args (map lr args) PLV_mono).
-            -- intros x y n2 m2 _ _ _ [-> Hx]. eapply bsim_bind; [apply IHe, Hx|]. intros v v' n3 m3 _ _ [-> Hv]. apply bsim_lpush_param, Hv.
-            -- apply Forall_PLV. eapply lvalls_mono; [| |exact Hargs]; assumption.
-          * intros n2 m2 _ _. eapply bsim_bind; [apply bsim_ldrain_params|]. intros ps ps' n3 m3 _ _ [-> Hps]. apply bsim_lcall; assumption.
+        + rewrite lvall_call in Hlv. destruct Hlv as [Hf Hargs]. rewrite map_length. intros s1 s2 p HR Hn Hm.
+          pose proof (push_args_sim (eval_lv' fuel) (eval_lv' fuel) args n1 m1 (fun x n2 m2 _ _ _ Hx => IHe x n2 m2 Hx)
+                        ltac:(eapply lvalls_mono; [| |exact Hargs]; assumption) s1 s2 p HR Hn Hm) as Hloop.
+          set (F := fun a => v <- eval_lv' fuel a ;; lpush_param v) in *. unfold bind.
+          destruct (iterM F args s1 p) as [[[u s1'] p']|e|y|]; [|rewrite Hloop; reflexivity..].
+          destruct Hloop as (s2' & vs & E2 & HR' & Hp1 & Hp2 & Hlen & Hvs & Hg' & Hs'). rewrite E2.
+          rewrite (ldrain_eq (l_params s1) vs (length args) s1' p' Hp1 Hlen), (ldrain_eq (l_params s2) (map vr vs) (length args) s2' p' Hp2 ltac:(rewrite map_length; exact Hlen)).
+          pose proof (bsim_lcall (gn s1') (sn s1') f vs Hf Hvs (wparams (l_params s1) s1') (wparams (l_params s2) s2') p'
+                        (R_restore_params s1 s2 s1' s2' vs HR HR' Hp1 Hp2) (N.le_refl _) (N.le_refl _)) as Hc.
+          destruct (lcall_function call f vs (wparams (l_params s1) s1') p') as [[[v s1''] p'']|e|y|]; try exact Hc.
+          destruct Hc as (v' & s2'' & E3 & HR'' & Hpa & Hg'' & Hs'' & HPV). exists v', s2''. split; [exact E3|]. split; [exact HR''|]. split; [exact Hpa|].
+          change (gn (wparams (l_params s1) s1')) with (gn s1') in Hg''. change (sn (wparams (l_params s1) s1')) with (sn s1') in Hs''. split; [lia|]. split; [lia|exact HPV].
       - intros loc n m [Hl1 Hl2]. cbn [force_thunk]. apply bsim_get. intros s1 s2 HR Hn Hm.
         destruct HR as (_ & (ts & Es1 & Es2 & Hac) & _). rewrite Es1, Es2.
         assert (Hsl : kb2 <= sl loc /\ sl loc - kb2 = loc - kb1) by (unfold sl; lia). destruct Hsl as [Hsl1 Hsl2].
